@@ -104,6 +104,14 @@ func c06RandFlags(r *rand.Rand, kind string) eng.Flags {
 func c06RandWide(r *rand.Rand, kind string) *c06Wide {
 	b := func() bool { return r.Intn(2) == 0 }
 	w := &c06Wide{Force: b(), WaitForJobs: b(), Wait: b()}
+	if kind == "install" || kind == "upgrade" {
+		w.Getter = b()
+		w.NilCaps = w.Getter && r.Intn(3) == 0
+		if b() {
+			w.Lookups = 1 + r.Intn(2)
+		}
+		w.CRDExists = r.Intn(4) == 0
+	}
 	switch kind {
 	case "install":
 		w.CRDs, w.Notes, w.Subchart, w.PostRender = b(), b(), b(), b()
@@ -122,6 +130,17 @@ func c06RandWide(r *rand.Rand, kind string) *c06Wide {
 		w.Recreate = b()
 	case "uninstall":
 		w.IgnoreNotFound = b()
+	}
+	return w
+}
+
+// c06ControlWide restricts a wide record to what the richer model has on a run that is NOT a dry
+// run: no Recreate / Force (read only after the bail-out, not in Engine/Ops.v), and a REST client
+// getter whenever crds/ would really be installed (installCRDs dereferences it).
+func c06ControlWide(w *c06Wide, op *eng.Op) *c06Wide {
+	w.Recreate, w.Force = false, false
+	if op.Kind == "install" && w.CRDs && !w.SkipCRDs && !op.Flags.ClientOnly {
+		w.Getter = true
 	}
 	return w
 }
@@ -212,6 +231,9 @@ func c06Gen(r *rand.Rand) c06Case {
 		if op.Flags.ClientOnly {
 			c.Wide.IncludeCRDs = r.Intn(2) == 0
 		}
+	} else if !dry && r.Intn(2) == 0 {
+		// a control that really installs, with the wide features (richer model only)
+		c.Wide = c06ControlWide(c06RandWide(r, kind), op)
 	}
 	if c06InModel(c) && r.Intn(100) < 30 {
 		a := &eng.Op{Kind: []string{"install", "upgrade", "upgrade", "rollback", "uninstall"}[r.Intn(5)]}
@@ -286,6 +308,29 @@ func (*c06) Corpus() []any {
 			out = append(out, c06Case{Backend: "secret", Shape: "empty", Op: op, Wide: &c06Wide{CRDs: true, SkipCRDs: m&1 != 0}})
 		}
 	}
+	// richer model: what a real install does with crds/, CreateNamespace, post-renderer, lookups,
+	// discovery - and the same runs under every dry spelling
+	for _, sp := range append([]c06Spelling{{false, ""}, {false, "none"}, {false, "false"}}, c06DrySpellings...) {
+		for m := 0; m < 8; m++ {
+			op := c06Mk("install", 7, eng.Flags{DryRun: sp.B, DryRunOption: sp.Opt, ClientOnly: m&4 != 0}, "a", "c")
+			op.Hooks = c06AllEventHooks()
+			w := &c06Wide{CRDs: true, CreateNamespace: true, PostRender: m&1 != 0, Getter: true, NilCaps: m&2 != 0, Lookups: 2,
+				CRDExists: m == 3, Notes: true, Subchart: m&1 != 0}
+			out = append(out, c06Case{Backend: "secret", Shape: "empty", Op: op, Wide: w})
+		}
+		up := c06Mk("upgrade", 7, eng.Flags{DryRun: sp.B, DryRunOption: sp.Opt, MaxHistory: 2}, "a", "c")
+		up.Hooks = c06AllEventHooks()
+		out = append(out, c06Case{Backend: "secret", Setup: setup(), Shape: "deployed3", Op: up,
+			Wide: &c06Wide{CRDs: true, PostRender: true, Getter: true, NilCaps: true, Lookups: 1, Subchart: true}})
+	}
+	// the namespace exists already; no getter and no lookups; replace on an uninstalled release
+	{
+		op := c06Mk("install", 7, eng.Flags{Replace: true}, "a", "c")
+		u := c06Mk("uninstall", 0, eng.Flags{KeepHistory: true})
+		out = append(out, c06Case{Backend: "memory", Shape: "uninstalled-kept", Setup: append(setup(), u), Op: op,
+			Init: []eng.Res{{Kind: "Namespace", Name: "default", Fields: map[string]string{"l:name": "default"}}},
+			Wide: &c06Wide{CreateNamespace: true, Lookups: 1}})
+	}
 	// `helm template` through pkg/cmd, with and without --validate, on a populated history
 	for _, v := range []bool{false, true} {
 		tp := c06Mk("install", 7, eng.Flags{DryRun: true}, "a", "c")
@@ -312,6 +357,17 @@ func (*c06) Corpus() []any {
 				out = append(out, c06Case{Backend: "secret", Shape: "empty", Op: tplChart(), Wide: wide,
 					Template: &c06Template{Validate: v, Args: args}})
 			}
+		}
+	}
+	for _, dr := range []string{"", "--dry-run=none", "--dry-run=false", "--dry-run=client", "--dry-run=server", "--dry-run=true"} {
+		for _, v := range []bool{false, true} {
+			var args []string
+			if dr != "" {
+				args = append(args, dr)
+			}
+			out = append(out, c06Case{Backend: "secret", Shape: "empty", Op: tplChart(),
+				Wide:     &c06Wide{CRDs: true, Getter: true, NilCaps: v, Lookups: 2, Subchart: true},
+				Template: &c06Template{Validate: v, Args: append(args, "--include-crds", "--create-namespace")}})
 		}
 	}
 	for _, extra := range [][]string{{"--is-upgrade", "--dry-run=none"}, {"--skip-tests", "--dry-run=false", "--create-namespace"},
